@@ -603,3 +603,45 @@ Definition counted_modified (before after : doc) : bool := negb (value_eqb (VDoc
 Theorem noop_reports_unchanged m d q u up fs now d' ch :
   apply_with m d q u up fs now = Ok (d', ch) -> d' = d -> counted_modified d d' = false.
 Proof. intros _ ->. unfold counted_modified. rewrite value_eqb_refl. reflexivity. Qed.
+
+(* ------------------------------------------------------------------ *)
+(* the full idempotence statement — without the hypotheses "plain paths" and
+   "pairwise disjoint" — is FALSE of the faithful model (and of lungo): *)
+
+Definition idempotent_for (m : doc -> doc -> res bool) (u : doc) : Prop :=
+  forall d q up fs now d1 ch1,
+    apply_with m d q u up fs now = Ok (d1, ch1) ->
+    exists ch2, apply_with m d1 q u up fs now = Ok (d1, ch2).
+
+Open Scope string_scope.
+
+(* (A) a.$[] together with a fixed element of the same array: the resolved
+   paths a.0 / a.1 do not conflict, the array grows, and the second
+   application sees one more element *)
+Definition u_positional_and_index : doc :=
+  [("$max", VDoc [("a.$[]", VInt32 5); ("a.1", VInt32 2)])].
+
+(* (B) conflicting paths 1.0 / 1 are accepted because the first invocation is
+   a no-op and is never recorded *)
+Definition u_conflict_after_noop : doc :=
+  [("$max", VDoc [("1.0", VInt32 5); ("1", VArr [])])].
+
+Theorem idempotence_refuted m :
+  ~ idempotent_for m u_positional_and_index /\ ~ idempotent_for m u_conflict_after_noop.
+Proof.
+  split; intro H.
+  - specialize (H [("a", VArr [VInt32 1])] [] false [] 0 [("a", VArr [VInt32 5; VInt32 2])]
+                  [("a.0", VInt32 5); ("a.1", VInt32 2)] eq_refl).
+    destruct H as [ch2 H]. vm_compute in H. discriminate.
+  - specialize (H [("1", VDoc [("0", VString "")])] [] false [] 0 [("1", VArr [])]
+                  [("1", VArr [])] eq_refl).
+    destruct H as [ch2 H]. vm_compute in H. discriminate.
+Qed.
+
+(* (C) a '$' inside a segment: SplitDynamicPath cuts one character before it,
+   so the update {$mul: {"ab$[].c": 2}} is applied to the field "a" *)
+Theorem dollar_inside_segment_refuted m :
+  apply_with m [("a", VArr [VDoc [("c", VInt32 1)]]); ("k", VInt32 0)] []
+             [("$mul", VDoc [("ab$[].c", VInt32 2)])] false [] 0 =
+  Ok ([("a", VArr [VDoc [("c", VInt32 2)]]); ("k", VInt32 0)], [("a.0.c", VInt32 2)]).
+Proof. reflexivity. Qed.
